@@ -169,11 +169,20 @@ class Axioms:
             return ip.top_of(dty), st
         return ip.top_of(dty), st
 
+    @staticmethod
+    def unit_generic(tt):
+        """Interior of rand's unit-interval float draws: multiples of 2^-p, so the smallest non-zero value is 2^-p and the largest
+        value below 1 is 1 - 2^-p (p = 53 for f64, 24 for f32); the special points 0, 1/2, 1 are handled as tagged draws."""
+        p = 24 if tt.get("bits") == 32 else 53
+        eps = Fraction(2) ** -p
+        half = Fraction(1, 2)
+        return Fl([(eps, True, half, False), (half, False, 1 - eps, True)])
+
     def standard_uniform(self, ip, inst, bi, dty):
         tt = self.F.types[dty] if dty is not None else {"k": "?"}
         if tt["k"] == "float":
             half = Fraction(1, 2)
-            g = Fl([(Fraction(0), False, half, False), (half, False, Fraction(1), False)])
+            g = self.unit_generic(tt)
             return self.draw(ip, inst, bi, "StandardUniform[0,1)", g, [("0", Fl.point(0)), ("1/2", Fl.point(half))])
         if tt["k"] == "int":
             full = In.of_type(tt["bits"], tt["signed"])
@@ -200,10 +209,10 @@ class Axioms:
         tt = self.F.types[dty] if dty is not None else {"k": "?"}
         half = Fraction(1, 2)
         if "OpenClosed01" in p:
-            g = Fl([(Fraction(0), False, half, False), (half, False, Fraction(1), False)])
+            g = self.unit_generic(tt)
             return self.draw(ip, inst, bi, "OpenClosed01(0,1]", g, [("1", Fl.point(1)), ("1/2", Fl.point(half))])
         if "Open01" in p:
-            g = Fl([(Fraction(0), False, half, False), (half, False, Fraction(1), False)])
+            g = self.unit_generic(tt)
             return self.draw(ip, inst, bi, "Open01(0,1)", g, [("1/2", Fl.point(half))])
         if "StandardUniform" in p:
             return self.standard_uniform(ip, inst, bi, dty)
@@ -325,7 +334,7 @@ def h_unary(f):
         a = _fl(ip, ax, st, args[0])
         if a is None:
             return Fl.top(), st
-        return f(a), st
+        return ip.fl_post(f(a)), st
     return h
 
 
@@ -334,8 +343,25 @@ def h_binary(f):
         a, b = _fl(ip, ax, st, args[0]), _fl(ip, ax, st, args[1])
         if a is None or b is None:
             return Fl.top(), st
-        return f(a, b), st
+        return ip.fl_post(f(a, b)), st
     return h
+
+
+def fl_pow_ieee(x, y):
+    """pow; for point operands whose exact result is far outside the double range the outcome is decided (overflow/underflow),
+    which the later IEEE rounding step then turns into +inf / 0"""
+    import math
+    if x.is_point() and y.is_point() and x.ivs and y.ivs and x.ivs[0][0] > 0 and x.ivs[0][0] != 1:
+        try:
+            e = float(y.ivs[0][0]) * math.log2(float(x.ivs[0][0])) if float(x.ivs[0][0]) > 0 else None
+        except (OverflowError, ValueError):
+            e = None
+        if e is not None:
+            if e > 1100:
+                return Fl.point(Fraction(2) ** 1100)      # rounds to +inf in either float format
+            if e < -1200:
+                return Fl.point(Fraction(2) ** -1200)     # rounds to +0
+    return V.fl_pow(x, y)
 
 
 def h_powi(ax, ip, inst, fid, bi, st, t, fn, args, argpl, dty):
@@ -343,7 +369,7 @@ def h_powi(ax, ip, inst, fid, bi, st, t, fn, args, argpl, dty):
     n = _num(ip, ax, st, args[1])
     if a is None or not isinstance(n, In):
         return Fl.top(), st
-    return V.fl_powi(a, n.lo, n.hi), st
+    return ip.fl_post(V.fl_powi(a, n.lo, n.hi)), st
 
 
 def h_signum(ax, ip, inst, fid, bi, st, t, fn, args, argpl, dty):
@@ -550,7 +576,7 @@ def h_vec_push(ax, ip, inst, fid, bi, st, t, fn, args, argpl, dty):
         ip.imprecise.append("push on untracked vector")
         return UNIT, st
     elem = join(v.elem, args[1]) if v.elem is not None else args[1]
-    ip.write_resolved(st, ("place", place), Vc(elem, In(v.len.lo + 1, min(v.len.hi + 1, (1 << 63) - 1), 64, False)))
+    ip.write_resolved(st, ("place", place), Vc(elem, In(v.len.lo + 1, min(v.len.hi + 1, (1 << 63) - 1), 64, False), v.head))
     return UNIT, st
 
 
@@ -561,8 +587,8 @@ def h_vec_pop(ax, ip, inst, fid, bi, st, t, fn, args, argpl, dty):
     some = v.len.hi > 0
     none = v.len.lo == 0
     if place is not None and some:
-        ip.write_resolved(st, ("place", place), Vc(v.elem, In(max(v.len.lo - 1, 0), v.len.hi - 1, 64, False)))
-    return ax.option(dty, some=v.elem if some else None, none=none), st
+        ip.write_resolved(st, ("place", place), Vc(v.elem, In(max(v.len.lo - 1, 0), v.len.hi - 1, 64, False), v.head if v.len.lo > 1 else None))
+    return ax.option(dty, some=v.all_elems() if some else None, none=none), st
 
 
 def h_index(mutable):
@@ -577,7 +603,7 @@ def h_index(mutable):
                 ip.event("panic:index", inst, bi, "index may be out of bounds", t.get("span"))
             if idx.lo >= v.len.hi:
                 return DIVERGE
-            return Rf((place[0], place[1], place[2] + (("e",),)) if place is not None else None, v.elem, mutable), st
+            return Rf((place[0], place[1], place[2] + (("e", (idx.lo, idx.hi)),)) if place is not None else None, v.at(idx.lo, idx.hi), mutable), st
         # range index -> subslice of known length when the bounds are known
         rng = ip.materialize(idx)
         tpath = None
@@ -601,10 +627,16 @@ def h_index(mutable):
                     ip.event("panic:index", inst, bi, "slice range may be out of bounds", t.get("span"))
                 n = In(max(hi.lo - lo.hi, 0), max(hi.hi - lo.lo, 0), 64, False)
                 n = In(min(n.lo, v.len.hi), min(n.hi, v.len.hi), 64, False)
-                sub = Vc(v.elem, n)
+                # a sub-slice starting at 0 keeps the separately tracked first element, one starting later drops it
+                if lo.hi == 0:
+                    sub = Vc(v.elem, n, v.head)
+                elif lo.lo >= 1:
+                    sub = Vc(v.elem, n)
+                else:
+                    sub = Vc(v.all_elems(), n)
                 # writes through a sub-slice reach the parent only as weak element updates
                 return Rf((place[0], place[1], place[2] + (("s",),)) if place is not None and mutable else None, sub, mutable), st
-        return Rf(None, Vc(v.elem, In(0, v.len.hi, 64, False)), mutable), st
+        return Rf(None, Vc(v.all_elems(), In(0, v.len.hi, 64, False)), mutable), st
     return h
 
 
@@ -612,7 +644,7 @@ def h_first(ax, ip, inst, fid, bi, st, t, fn, args, argpl, dty):
     v, place = _vec_place(ip, ax, st, args[0])
     if v is None:
         return ip.top_of(dty), st
-    r = Rf((place[0], place[1], place[2] + (("e",),)) if place is not None else None, v.elem, False)
+    r = Rf((place[0], place[1], place[2] + (("e", (0, 0)),)) if place is not None else None, v.at(0, 0), False)
     return ax.option(dty, some=r if v.len.hi > 0 else None, none=v.len.lo == 0), st
 
 
@@ -639,7 +671,9 @@ def h_iter(mutable):
                 return a, st
             return Ax("iter", (Top(), usize(0, (1 << 63) - 1))), st
         eplace = (place[0], place[1], place[2] + (("e",),)) if place is not None else None
-        return Ax("iter", (Rf(eplace, v.elem, mutable), v.len)), st
+        hplace = (place[0], place[1], place[2] + (("e", (0, 0)),)) if place is not None else None
+        head = Rf(hplace, v.head, mutable) if v.head is not None else None
+        return Ax("iter", (Rf(eplace, v.elem, mutable), v.len, None, head)), st
     return h
 
 
@@ -648,12 +682,14 @@ def h_into_iter(ax, ip, inst, fid, bi, st, t, fn, args, argpl, dty):
     if isinstance(a, Ax) and a.kind in ("iter", "range"):
         return a, st
     if isinstance(a, Vc):
-        return Ax("iter", (a.elem, a.len)), st
+        return Ax("iter", (a.elem, a.len, None, a.head)), st
     if isinstance(a, Rf):
         v, place = _vec_place(ip, ax, st, a)
         if v is not None:
             eplace = (place[0], place[1], place[2] + (("e",),)) if place is not None else None
-            return Ax("iter", (Rf(eplace, v.elem, a.mut), v.len)), st
+            hplace = (place[0], place[1], place[2] + (("e", (0, 0)),)) if place is not None else None
+            head = Rf(hplace, v.head, a.mut) if v.head is not None else None
+            return Ax("iter", (Rf(eplace, v.elem, a.mut), v.len, None, head)), st
     if isinstance(a, St) and len(a.fields) == 2 and isinstance(ip.materialize(a.fields[0]), In):
         return a, st       # Range<int> is its own iterator
     if isinstance(a, St):
@@ -661,10 +697,16 @@ def h_into_iter(ax, ip, inst, fid, bi, st, t, fn, args, argpl, dty):
     return Ax("iter", (Top(), usize(0, (1 << 63) - 1))), st
 
 
+def _iter_head(a):
+    return a.data[3] if len(a.data) > 3 else None
+
+
 def _iter_parts(ip, a):
+    """(summary of every remaining element, remaining length) — the separately tracked head folded in"""
     a = ip.materialize(a)
     if isinstance(a, Ax) and a.kind == "iter":
-        return a.data[0], a.data[1]
+        h = _iter_head(a)
+        return (join(h, a.data[0]) if h is not None else a.data[0]), a.data[1]
     return None, None
 
 
@@ -673,10 +715,14 @@ def h_iter_next(ax, ip, inst, fid, bi, st, t, fn, args, argpl, dty):
     it = ax.deref(ip, st, r)
     if isinstance(it, Ax) and it.kind == "iter":
         elem, ln = it.data[0], it.data[1]
+        head = _iter_head(it)
         some = ln.hi > 0
         none = ln.lo == 0
+        rest = Ax("iter", (it.data[0], In(max(ln.lo - 1, 0), ln.hi - 1, 64, False), it.data[2] if len(it.data) > 2 else None, None))
         if isinstance(r, Rf) and r.place is not None and some:
-            ip.write_resolved(st, ("place", r.place), Ax("iter", (elem, In(max(ln.lo - 1, 0), ln.hi - 1, 64, False))))
+            ip.write_resolved(st, ("place", r.place), rest)
+        if head is not None:
+            elem = head       # the first element comes out first
         if it.data[2:] and it.data[2] is not None:
             # mapped iterator: apply the closure
             res = ip.call_value(it.data[2], [elem], st, inst, bi)
@@ -721,10 +767,12 @@ def h_rev(ax, ip, inst, fid, bi, st, t, fn, args, argpl, dty):
 
 
 def h_copied(ax, ip, inst, fid, bi, st, t, fn, args, argpl, dty):
-    e, ln = _iter_parts(ip, args[0])
-    if e is None:
-        return args[0], st
-    return Ax("iter", (ax.deref(ip, st, e), ln)), st
+    a0 = ip.materialize(args[0])
+    if isinstance(a0, Ax) and a0.kind == "iter":
+        h = _iter_head(a0)
+        return Ax("iter", (ax.deref(ip, st, a0.data[0]), a0.data[1], a0.data[2] if len(a0.data) > 2 else None,
+                           ax.deref(ip, st, h) if h is not None else None)), st
+    return args[0], st
 
 
 def h_enumerate(ax, ip, inst, fid, bi, st, t, fn, args, argpl, dty):
@@ -754,15 +802,21 @@ def h_all(ax, ip, inst, fid, bi, st, t, fn, args, argpl, dty):
         return Bo(True, True), st
     if ln.hi == 0:
         return Bo(True, False), st
-    res = ip.call_value(args[1], [e], st, inst, bi)
-    if res is DIVERGE:
-        return DIVERGE
-    b, st2 = res
-    b = ip.materialize(b)
-    if isinstance(b, Bo):
-        # all(): true iff every element satisfies; with a summary element: may-true if pred may be true (or empty), may-false if pred may be false
-        return Bo(b.t or ln.lo == 0, b.f), st2
-    return Bo(True, True), st2
+    head = _iter_head(it) if isinstance(it, Ax) else None
+    parts = [it.data[0]] if head is None else ([head] + ([it.data[0]] if ln.hi > 1 else []))
+    t_all, f_any = True, False
+    for p_ in parts:
+        res = ip.call_value(args[1], [p_], st, inst, bi)
+        if res is DIVERGE:
+            return DIVERGE
+        b, st = res
+        b = ip.materialize(b)
+        if not isinstance(b, Bo):
+            return Bo(True, True), st
+        t_all = t_all and b.t
+        f_any = f_any or b.f
+    # all(): true iff every element satisfies the predicate
+    return Bo(t_all or ln.lo == 0, f_any), st
 
 
 def h_sum(ax, ip, inst, fid, bi, st, t, fn, args, argpl, dty):
@@ -919,7 +973,7 @@ TRAIT_AXIOMS = {
     ("FloatConst", "FRAC_1_SQRT_2"): h_const(lambda tt: Fl.point(0.7071067811865476)), ("FloatConst", "FRAC_2_SQRT_PI"): h_const(lambda tt: Fl.point(1.1283791670955126)),
     ("Float", "ln"): h_unary(V.fl_ln), ("Float", "exp"): h_unary(V.fl_exp), ("Float", "sqrt"): h_unary(V.fl_sqrt),
     ("Float", "floor"): h_unary(V.fl_floor), ("Float", "ceil"): h_unary(V.fl_ceil), ("Float", "abs"): h_unary(V.fl_abs),
-    ("Float", "recip"): h_unary(V.fl_recip), ("Float", "tan"): h_unary(V.fl_tan), ("Float", "powf"): h_binary(V.fl_pow),
+    ("Float", "recip"): h_unary(V.fl_recip), ("Float", "tan"): h_unary(V.fl_tan), ("Float", "powf"): h_binary(fl_pow_ieee),
     ("Float", "powi"): h_powi, ("Float", "max"): h_binary(V.fl_max), ("Float", "min"): h_binary(V.fl_min), ("Float", "signum"): h_signum,
     ("Float", "is_nan"): h_pred("is_nan"), ("Float", "is_finite"): h_pred("is_finite"), ("Float", "is_infinite"): h_pred("is_infinite"),
     ("Float", "is_normal"): h_pred("is_normal"), ("Float", "is_sign_negative"): h_pred("is_sign_negative"),
@@ -942,7 +996,7 @@ PATH_AXIOMS = [(re.compile(p), h) for p, h in [
     (r"^(std|core)::F::<impl F>::sqrt$", h_unary(V.fl_sqrt)), (r"^(std|core)::F::<impl F>::floor$", h_unary(V.fl_floor)),
     (r"^(std|core)::F::<impl F>::ceil$", h_unary(V.fl_ceil)), (r"^(std|core)::F::<impl F>::abs$", h_unary(V.fl_abs)),
     (r"^(std|core)::F::<impl F>::recip$", h_unary(V.fl_recip)), (r"^(std|core)::F::<impl F>::tan$", h_unary(V.fl_tan)),
-    (r"^(std|core)::F::<impl F>::powf$", h_binary(V.fl_pow)), (r"^(std|core)::F::<impl F>::powi$", h_powi),
+    (r"^(std|core)::F::<impl F>::powf$", h_binary(fl_pow_ieee)), (r"^(std|core)::F::<impl F>::powi$", h_powi),
     (r"^(std|core)::F::<impl F>::max$", h_binary(V.fl_max)), (r"^(std|core)::F::<impl F>::min$", h_binary(V.fl_min)),
     (r"^(std|core)::F::<impl F>::is_nan$", h_pred("is_nan")), (r"^(std|core)::F::<impl F>::is_finite$", h_pred("is_finite")),
     (r"^(std|core)::F::<impl F>::is_infinite$", h_pred("is_infinite")), (r"^(std|core)::F::<impl F>::signum$", h_signum),
